@@ -11,6 +11,8 @@
 #include <pterms/PTRef.h>
 #include <sorts/SSort.h>
 
+#include <atomic>
+
 namespace opensmt {
 class FunctionSignature {
 public:
@@ -62,7 +64,7 @@ public:
 
 private:
     inline static constexpr std::string_view template_arg_prefix = ".arg";
-    inline static std::size_t template_arg_counter = 0;
+    inline static std::atomic<std::size_t> template_arg_counter{0}; // shared by all interpreters of the process
 
     FunctionSignature signature;
     PTRef tr_body;
